@@ -10,18 +10,56 @@ Lemma upd_length {A} (i : nat) (x : A) l : length (upd i x l) = length l.
 Proof. revert i; induction l as [|h t IH]; intros [|i]; cbn; auto. Qed.
 
 Lemma nth_upd_eq {A} (i : nat) (x d : A) l : (i < length l)%nat -> nth i (upd i x l) d = x.
-Proof. revert i; induction l as [|h t IH]; intros [|i] H; cbn in *; try lia; auto. apply IH; lia. Qed.
+Proof.
+  revert i; induction l as [|h t IH]; intros [|i] H; cbn in *; try lia; auto.
+  apply IH; lia.
+Qed.
 
 Lemma nth_upd_ne {A} (i j : nat) (x d : A) l : i <> j -> nth j (upd i x l) d = nth j l d.
 Proof.
-  revert i j; induction l as [|h t IH]; intros [|i] [|j] H; cbn; auto; try lia.
-  apply IH; lia.
+  revert i j; induction l as [|h t IH]; intros [|i] [|j] H; cbn; auto; try lia; try (apply IH; lia).
 Qed.
 
 Lemma nthZ_upd_eq i x l : (i < length l)%nat -> nthZ (upd i x l) i = x.
 Proof. apply nth_upd_eq. Qed.
 Lemma nthZ_upd_ne i j x l : i <> j -> nthZ (upd i x l) j = nthZ l j.
 Proof. apply nth_upd_ne. Qed.
+
+Lemma upd_comm {A} (i j : nat) (x y : A) l :
+  i <> j -> upd i x (upd j y l) = upd j y (upd i x l).
+Proof.
+  revert i j; induction l as [|h t IH]; intros [|i] [|j] H; cbn; auto; try lia.
+  f_equal. apply IH. lia.
+Qed.
+
+Lemma map_upd {A B} (f : A -> B) (i : nat) (x : A) l : map f (upd i x l) = upd i (f x) (map f l).
+Proof.
+  revert i; induction l as [|h t IH]; intros [|i]; cbn; auto. f_equal. apply IH.
+Qed.
+
+Lemma In_upd {A} (i : nat) (x y : A) l : In y (upd i x l) -> y = x \/ In y l.
+Proof.
+  revert i; induction l as [|h t IH]; intros [|i] H; cbn in *; auto.
+  - destruct H as [H|H]; auto.
+  - destruct H as [H|H]; auto. destruct (IH _ H); auto.
+Qed.
+
+Lemma nth_In_Z l i : (i < length l)%nat -> In (nthZ l i) l.
+Proof. intros; apply nth_In; assumption. Qed.
+
+Lemma nthZ_app1 pre f j : (j < length pre)%nat -> nthZ (pre ++ [f]) j = nthZ pre j.
+Proof. intros; unfold nthZ; apply app_nth1; assumption. Qed.
+Lemma nthZ_app_last pre f : nthZ (pre ++ [f]) (length pre) = f.
+Proof. unfold nthZ. rewrite app_nth2 by lia. rewrite Nat.sub_diag. reflexivity. Qed.
+
+Lemma nthZ_overflow l i : (length l <= i)%nat -> nthZ l i = 0.
+Proof. intros; unfold nthZ; apply nth_overflow; assumption. Qed.
+
+Lemma map_nth_seq {A} (l : list A) d : map (fun i => nth i l d) (seq 0 (length l)) = l.
+Proof.
+  induction l as [|h t IH]; cbn [length seq map]; [reflexivity|].
+  cbn [nth]. f_equal. rewrite <- seq_shift, map_map. exact IH.
+Qed.
 
 (* ------------------------------------------------------------------ sums *)
 Lemma sumZ_app a b : sumZ (a ++ b) = sumZ a + sumZ b.
@@ -40,35 +78,34 @@ Proof.
   rewrite !map_id in E. exact E.
 Qed.
 
-Lemma sumZ_map_nonneg (g : Z -> Z) l : (forall x, In x l -> 0 <= g x) -> 0 <= sumZ (map g l).
+Lemma sumZ_map_nonneg {A} (g : A -> Z) l : (forall x, In x l -> 0 <= g x) -> 0 <= sumZ (map g l).
 Proof.
   induction l as [|h t IH]; intros H; cbn; [lia|].
   assert (0 <= g h) by (apply H; left; reflexivity).
   assert (0 <= sumZ (map g t)) by (apply IH; intros; apply H; right; assumption). lia.
 Qed.
 
-Lemma sumZ_map_zero (g : Z -> Z) l : (forall x, In x l -> g x = 0) -> sumZ (map g l) = 0.
+Lemma sumZ_map_zero {A} (g : A -> Z) l : (forall x, In x l -> g x = 0) -> sumZ (map g l) = 0.
 Proof.
   induction l as [|h t IH]; intros H; cbn; [lia|].
   rewrite (H h) by (left; reflexivity). rewrite IH; [lia|]. intros; apply H; right; assumption.
 Qed.
 
-Lemma nth_In_Z l i : (i < length l)%nat -> In (nthZ l i) l.
-Proof. intros; apply nth_In; assumption. Qed.
+Lemma sumZ_map_ext_in {A} (f g : A -> Z) l :
+  (forall x, In x l -> f x = g x) -> sumZ (map f l) = sumZ (map g l).
+Proof. intros H. f_equal. apply map_ext_in. exact H. Qed.
 
-Lemma In_upd {A} (i : nat) (x y : A) l : In y (upd i x l) -> y = x \/ In y l.
-Proof.
-  revert i; induction l as [|h t IH]; intros [|i] H; cbn in *; auto.
-  - destruct H as [H|H]; auto.
-  - destruct H as [H|H]; auto. destruct (IH _ H); auto.
-Qed.
+Lemma sumZ_map_perm {A} (g : A -> Z) l l' : Permutation l l' -> sumZ (map g l) = sumZ (map g l').
+Proof. induction 1; cbn [map sumZ]; lia. Qed.
+
+Lemma sumZ_map_scale {A} (g : A -> Z) k l : sumZ (map (fun x => k * g x) l) = k * sumZ (map g l).
+Proof. induction l as [|h t IH]; cbn [map sumZ]; lia. Qed.
 
 (* one term of a sum of non-negative terms is bounded by the sum; two distinct too *)
 Lemma sumZ_map_term (g : Z -> Z) l i :
   (forall x, In x l -> 0 <= g x) -> (i < length l)%nat -> g (nthZ l i) <= sumZ (map g l).
 Proof.
   intros Hn Hi.
-  (* replace entry i by itself through upd with a zero-valued witness is awkward: do induction *)
   unfold nthZ. revert i Hi; induction l as [|h t IH]; intros [|i] Hi; cbn in *; try lia.
   - assert (0 <= sumZ (map g t)) by (apply sumZ_map_nonneg; intros; apply Hn; right; assumption). lia.
   - assert (0 <= g h) by (apply Hn; left; reflexivity).
@@ -89,77 +126,149 @@ Proof.
     { apply IH; try lia. intros; apply Hn; right; assumption. } lia.
 Qed.
 
-(* ------------------------------------------------------ selection loop *)
-Definition alive (f : Z) : Prop := f <= SENT.
-
-Definition SInv (pre : list Z) (s : sel) : Prop :=
-  (c1 s = None -> (forall f, In f pre -> f > SENT) /\ c2 s = None /\ v s = SENT /\ v2 s = SENT) /\
-  (forall a, c1 s = Some a ->
-     (a < length pre)%nat /\ nthZ pre a = v s /\ v s <= v2 s /\ v2 s <= SENT /\
-     (c2 s = None -> v2 s = SENT /\ forall j, (j < length pre)%nat -> j <> a -> nthZ pre j > SENT) /\
-     (forall b, c2 s = Some b -> (b < length pre)%nat /\ b <> a /\ nthZ pre b = v2 s)).
-
-Lemma SInv_init : SInv [] sel0.
+Lemma sumZ_term l i : (forall x, In x l -> 0 <= x) -> nthZ l i <= sumZ l.
 Proof.
-  split.
-  - intros _. cbn. repeat split; auto. intros f [].
-  - intros a H; discriminate H.
+  intros Hn. destruct (Nat.lt_ge_cases i (length l)) as [Hi|Hi].
+  - pose proof (sumZ_map_term (fun z => z) l i Hn Hi) as E. rewrite map_id in E. exact E.
+  - rewrite nthZ_overflow by assumption.
+    pose proof (sumZ_map_nonneg (fun z => z) l Hn) as E. rewrite map_id in E. exact E.
 Qed.
 
-Lemma nthZ_app1 pre f j : (j < length pre)%nat -> nthZ (pre ++ [f]) j = nthZ pre j.
-Proof. intros; unfold nthZ; apply app_nth1; assumption. Qed.
-Lemma nthZ_app_last pre f : nthZ (pre ++ [f]) (length pre) = f.
-Proof. unfold nthZ. rewrite app_nth2 by lia. rewrite Nat.sub_diag. reflexivity. Qed.
+Lemma sumZ_two_terms l i j :
+  (forall x, In x l -> 0 <= x) -> (i < length l)%nat -> (j < length l)%nat -> i <> j ->
+  nthZ l i + nthZ l j <= sumZ l.
+Proof.
+  intros Hn Hi Hj Hne.
+  pose proof (sumZ_map_two_terms (fun z => z) l i j Hn Hi Hj Hne) as E. rewrite map_id in E. exact E.
+Qed.
+
+Lemma sumZ_zero l : (forall x, In x l -> x = 0) -> sumZ l = 0.
+Proof.
+  intros H. pose proof (sumZ_map_zero (fun z => z) l H) as E. rewrite map_id in E. exact E.
+Qed.
+
+(* ---------------------------------------------------------------- concat *)
+Lemma concat_extract {A} (l : list (list A)) i :
+  (i < length l)%nat -> Permutation (concat l) (nth i l [] ++ concat (upd i [] l)).
+Proof.
+  revert i; induction l as [|h t IH]; intros [|i] H; cbn [length] in H; try lia.
+  - cbn. reflexivity.
+  - cbn [concat nth upd].
+    rewrite (IH i) at 1 by lia. apply Permutation_app_swap_app.
+Qed.
+
+Lemma concat_upd_perm {A} (l : list (list A)) i x :
+  (i < length l)%nat -> Permutation (concat (upd i x l)) (x ++ concat (upd i [] l)).
+Proof.
+  revert i; induction l as [|h t IH]; intros [|i] H; cbn [length] in H; try lia.
+  - cbn. reflexivity.
+  - cbn [concat upd].
+    rewrite (IH i) by lia. apply Permutation_app_swap_app.
+Qed.
+
+Lemma concat_merge {A} (K : list (list A)) a b :
+  (a < length K)%nat -> (b < length K)%nat -> a <> b ->
+  Permutation (concat (upd b [] (upd a (nth a K [] ++ nth b K []) K))) (concat K).
+Proof.
+  intros Ha Hb Hne.
+  rewrite upd_comm by auto.
+  rewrite concat_upd_perm by (rewrite upd_length; exact Ha).
+  rewrite (concat_extract K b Hb).
+  rewrite (concat_extract (upd b [] K) a) by (rewrite upd_length; exact Ha).
+  rewrite nth_upd_ne by auto.
+  rewrite <- app_assoc.
+  apply Permutation_app_swap_app.
+Qed.
+
+Lemma concat_all_nil {A} (l : list (list A)) :
+  (forall j, (j < length l)%nat -> nth j l [] = []) -> concat l = [].
+Proof.
+  induction l as [|h t IH]; intros H; [reflexivity|].
+  cbn [concat].
+  pose proof (H 0%nat ltac:(cbn; lia)) as H0. cbn in H0. subst h. cbn.
+  apply IH. intros j Hj. apply (H (S j)). cbn; lia.
+Qed.
+
+Lemma concat_single {A} (l : list (list A)) a :
+  (forall j, (j < length l)%nat -> j <> a -> nth j l [] = []) -> concat l = nth a l [].
+Proof.
+  revert a; induction l as [|h t IH]; intros a H.
+  - destruct a; reflexivity.
+  - destruct a as [|a]; cbn [concat nth].
+    + rewrite (concat_all_nil t); [apply app_nil_r|].
+      intros j Hj. apply (H (S j)); cbn; lia.
+    + pose proof (H 0%nat ltac:(cbn; lia) ltac:(lia)) as H0. cbn in H0. subst h. cbn [app].
+      apply IH. intros j Hj Hne. apply (H (S j)); cbn; lia.
+Qed.
+
+(* ------------------------------------------------------ selection loop *)
+Definition SInv (pre : list Z) (s : sel) : Prop :=
+  v s <= v2 s /\ v2 s <= SENT /\
+  match c1 s, c2 s with
+  | None, None => v s = SENT /\ v2 s = SENT /\
+                  forall j, (j < length pre)%nat -> nthZ pre j > SENT
+  | None, Some _ => False
+  | Some a, None => (a < length pre)%nat /\ nthZ pre a = v s /\ v2 s = SENT /\
+                    forall j, (j < length pre)%nat -> j <> a -> nthZ pre j > SENT
+  | Some a, Some b => (a < length pre)%nat /\ (b < length pre)%nat /\ a <> b /\
+                      nthZ pre a = v s /\ nthZ pre b = v2 s
+  end.
+
+Lemma SInv_init : SInv [] sel0.
+Proof. unfold SInv, sel0; cbn. repeat split; try lia. Qed.
+
+Lemma nthZ_snoc pre f j :
+  (j < S (length pre))%nat ->
+  nthZ (pre ++ [f]) j = if Nat.eq_dec j (length pre) then f else nthZ pre j.
+Proof.
+  intros H. destruct (Nat.eq_dec j (length pre)) as [->|Hne].
+  - apply nthZ_app_last.
+  - apply nthZ_app1. lia.
+Qed.
 
 Lemma SInv_step pre s f :
   SInv pre s -> SInv (pre ++ [f]) (sel_step s (length pre) f).
 Proof.
-  intros [H1 H2]. unfold sel_step.
-  destruct (f <=? v2 s) eqn:E2.
-  - apply Z.leb_le in E2.
-    destruct (f <=? v s) eqn:E1.
-    + apply Z.leb_le in E1. split; cbn [c1 c2 v v2]; [intros D; discriminate D|].
-      intros a Ha. injection Ha as <-.
-      rewrite app_length; cbn [length]. rewrite nthZ_app_last.
-      destruct (c1 s) as [a0|] eqn:Ec1.
-      * destruct (H2 a0 eq_refl) as (La & Va & Vle & V2le & Hnone & Hsome).
-        repeat split; try lia.
-        -- intros D; discriminate D.
-        -- intros D; discriminate D.
-        -- injection H as <-. lia.
-        -- injection H as <-. lia.
-        -- injection H as <-. rewrite nthZ_app1 by lia. exact Va.
-      * destruct (H1 eq_refl) as (Hall & Hc2 & Hv & Hv2).
-        repeat split; try lia.
-        -- intros j Hj Hne. rewrite nthZ_app1 by lia. apply Hall. apply nth_In_Z. lia.
-        -- discriminate H.
-        -- discriminate H.
-        -- discriminate H.
-    + apply Z.leb_gt in E1. split; cbn [c1 c2 v v2].
-      * intros Hc1. destruct (H1 Hc1) as (_ & _ & Hv & _). lia.
-      * intros a Ha. destruct (H2 a Ha) as (La & Va & Vle & V2le & Hnone & Hsome).
-        rewrite app_length; cbn [length].
-        repeat split; try lia.
-        -- rewrite nthZ_app1 by lia. exact Va.
-        -- intros D; discriminate D.
-        -- intros D; discriminate D.
-        -- injection H as <-. lia.
-        -- injection H as <-. lia.
-        -- injection H as <-. apply nthZ_app_last.
-  - apply Z.leb_gt in E2. split.
-    + intros Hc1. destruct (H1 Hc1) as (Hall & Hc2 & Hv & Hv2). repeat split; auto.
-      intros g Hg. apply in_app_or in Hg. destruct Hg as [Hg|[<-|[]]]; [apply Hall; assumption|lia].
-    + intros a Ha. destruct (H2 a Ha) as (La & Va & Vle & V2le & Hnone & Hsome).
-      rewrite app_length; cbn [length].
-      repeat split; try lia.
-      * rewrite nthZ_app1 by lia. exact Va.
-      * apply Hnone; assumption.
-      * intros j Hj Hne. destruct (Nat.eq_dec j (length pre)) as [->|Hd].
-        -- rewrite nthZ_app_last. destruct (Hnone H) as [Hv2 _]. lia.
-        -- rewrite nthZ_app1 by lia. apply Hnone; [assumption|lia|assumption].
-      * destruct (Hsome b H) as (Lb & _ & _). lia.
-      * destruct (Hsome b H) as (_ & Nb & _). exact Nb.
-      * destruct (Hsome b H) as (Lb & _ & Vb). rewrite nthZ_app1 by lia. exact Vb.
+  destruct s as [k1 k2 w w2]. unfold SInv, sel_step; cbn [c1 c2 v v2].
+  intros (Hle & Hs & H).
+  assert (Ll : length (pre ++ [f]) = S (length pre)) by (rewrite app_length; cbn; lia).
+  destruct (f <=? w2) eqn:E2; [apply Z.leb_le in E2|apply Z.leb_gt in E2].
+  - destruct (f <=? w) eqn:E1; [apply Z.leb_le in E1|apply Z.leb_gt in E1]; cbn [c1 c2 v v2].
+    + (* new minimum *)
+      split; [lia|]. split; [lia|]. rewrite Ll.
+      destruct k1 as [a|].
+      * assert (Ha : (a < length pre)%nat /\ nthZ pre a = w).
+        { destruct k2 as [b|]; tauto. }
+        destruct Ha as [Ha Va].
+        split; [lia|]. split; [lia|]. split; [lia|].
+        split; [apply nthZ_app_last|]. rewrite nthZ_app1 by lia. exact Va.
+      * destruct k2 as [b|]; [contradiction|].
+        destruct H as (Hw & Hw2 & Hall).
+        split; [lia|]. split; [apply nthZ_app_last|]. split; [lia|].
+        intros j Hj Hne. rewrite nthZ_app1 by lia. apply Hall. lia.
+    + (* new second *)
+      split; [lia|]. split; [lia|]. rewrite Ll.
+      destruct k1 as [a|].
+      * assert (Ha : (a < length pre)%nat /\ nthZ pre a = w).
+        { destruct k2 as [b|]; tauto. }
+        destruct Ha as [Ha Va].
+        split; [lia|]. split; [lia|]. split; [lia|].
+        split; [rewrite nthZ_app1 by lia; exact Va|apply nthZ_app_last].
+      * destruct k2 as [b|]; [contradiction|]. lia.
+  - (* unchanged *)
+    cbn [c1 c2 v v2]. split; [lia|]. split; [lia|]. rewrite Ll.
+    destruct k1 as [a|]; destruct k2 as [b|]; try contradiction.
+    + destruct H as (Ha & Hb & Hne & Va & Vb).
+      split; [lia|]. split; [lia|]. split; [exact Hne|].
+      rewrite !nthZ_app1 by lia. tauto.
+    + destruct H as (Ha & Va & Hw2 & Hall).
+      split; [lia|]. split; [rewrite nthZ_app1 by lia; exact Va|]. split; [exact Hw2|].
+      intros j Hj Hne. rewrite nthZ_snoc by lia.
+      destruct (Nat.eq_dec j (length pre)); [lia|]. apply Hall; lia.
+    + destruct H as (Hw & Hw2 & Hall).
+      split; [exact Hw|]. split; [exact Hw2|].
+      intros j Hj. rewrite nthZ_snoc by lia.
+      destruct (Nat.eq_dec j (length pre)); [lia|]. apply Hall; lia.
 Qed.
 
 Lemma SInv_scan fs : forall pre s, SInv pre s -> SInv (pre ++ fs) (sel_scan fs (length pre) s).
@@ -173,3 +282,26 @@ Qed.
 
 Lemma sel_scan_spec fs : SInv fs (sel_scan fs 0 sel0).
 Proof. exact (SInv_scan fs [] sel0 SInv_init). Qed.
+
+(* (R1) both selected indices are distinct, in range and not above the sentinel *)
+Lemma sel_some fs a b :
+  c1 (sel_scan fs 0 sel0) = Some a -> c2 (sel_scan fs 0 sel0) = Some b ->
+  (a < length fs)%nat /\ (b < length fs)%nat /\ a <> b /\ nthZ fs a <= SENT /\ nthZ fs b <= SENT.
+Proof.
+  intros E1 E2. pose proof (sel_scan_spec fs) as H. unfold SInv in H.
+  rewrite E1, E2 in H. destruct H as (Hle & Hs & Ha & Hb & Hne & Va & Vb).
+  repeat split; auto; lia.
+Qed.
+
+(* (R2) no second index: at most one entry is not above the sentinel *)
+Lemma sel_none fs :
+  c1 (sel_scan fs 0 sel0) = None \/ c2 (sel_scan fs 0 sel0) = None ->
+  exists a, forall j, (j < length fs)%nat -> j <> a -> nthZ fs j > SENT.
+Proof.
+  intros E. pose proof (sel_scan_spec fs) as H. unfold SInv in H.
+  destruct (c1 (sel_scan fs 0 sel0)) as [a|]; destruct (c2 (sel_scan fs 0 sel0)) as [b|].
+  - destruct E; discriminate.
+  - exists a. tauto.
+  - tauto.
+  - exists 0%nat. intros j Hj _. apply H. exact Hj.
+Qed.
